@@ -18,6 +18,23 @@ CLAIMED = {
             "minimize read every component of their operand with the right roles; advertised result classes; eclose "
             "is a closure over epsilon edges; merged names injective. Decides these clauses for every automaton; does "
             "not decide that the constructions compute the right values."),
+    "C02": ("typestate (minimised-DFA) check on every path into the isomorphism walk + dependence analysis of the walk "
+            "and of the partition refinement",
+            "Static necessary conditions: both arguments of the isomorphism walk are results of minimize() on DFAs on "
+            "every call path, non-DFA operands are determinised, == delegates, the walk's verdict depends on finality, "
+            "edge sets, edge symbols and successors of both sides, the initial partition splits on FINAL. Exactness of "
+            "the verdict (e.g. the explicit-sink-state defect) is not decided."),
+    "C03": ("typestate (determinism / epsilon-closure qualifiers) + role-flow dependence analysis + delegation and "
+            "fresh-name rules",
+            "Static necessary conditions on all paths: final-state flip only on a DFA; product coordinates from "
+            "epsilon-closed sets of the right operand; final pairs / alphabet / edges depend on both operands; "
+            "difference completes a fresh copy over self's alphabet; reverse swaps extremities and edge direction for "
+            "symbol and epsilon edges; rational operations go through Regex combinators; names fresh/injective."),
+    "C04": ("component-coverage dependence analysis + worklist pattern recogniser",
+            "Static necessary conditions: is_empty / is_acyclic / is_deterministic / get_accepted_words depend on every "
+            "component their definition needs (start, final, symbol and epsilon edges, all determinism conjuncts, "
+            "length bound), epsilon edges do not extend words, yields are duplicate-guarded. Exactness of the "
+            "enumeration is not decided."),
     "C19": ("effects-and-ownership analysis (mod/alias dataflow over a type-resolved call graph) with cache-discipline "
             "rules",
             "Static analysis over all paths of every public non-mutator method (per concrete receiver class, callees "
